@@ -48,6 +48,9 @@ structure RT where
   tokenIndex : Nat
   /-- `tree.tree` (the local `tree` of Init is a `tokens32`, whose only field is `tree`) -/
   tree : List Tok
+  /-- `p.tokens32.tree`: what `parse` publishes (`p.tokens32 = tree`) and `Trim`s, what `Tokens()` / `Execute()` read (L30;
+  defaults to empty so that states written before it existed still elaborate) -/
+  ptree : List Tok := []
   memo : List (Key × Memo)
   max : Tok
   disableMemoize : Bool
